@@ -227,3 +227,13 @@ func bytesOf(b byte, n int) []byte {
 	}
 	return o
 }
+
+// TinyAcct / HugeAcct: valid account addresses of the shortest and the longest length the SDK accepts.
+func TinyAcct() string { return Bech([]byte{0x5a}) }
+func HugeAcct() string {
+	b := make([]byte, 255)
+	for j := range b {
+		b[j] = byte(j + 1)
+	}
+	return Bech(b)
+}
